@@ -9,4 +9,7 @@ replace (
 	gopkg.in/sourcemap.v1 => github.com/go-sourcemap/sourcemap v1.0.5
 )
 
-require github.com/lianxiangcloud/linkchain v0.0.0-00010101000000-000000000000
+require (
+	github.com/lianxiangcloud/linkchain v0.0.0-00010101000000-000000000000
+	github.com/xunleichain/tc-wasm v0.3.5
+)
